@@ -134,3 +134,41 @@ impl VpIter<usize> {
     #[verifier::external_body]
     pub fn sum(self) -> (r: usize) { unimplemented!() }
 }
+/// `&'a [SyntaxNode]` as handed out by `children().as_slice()`: modelled, like `VpIter<&SyntaxNode>`, as a finite sequence of
+/// node references.  Range indexing is rewritten (rule R6) to `vp_range`, which carries Rust's panic condition.
+#[verifier::external_body]
+pub struct VpSlice<'a> { _p: core::marker::PhantomData<&'a SyntaxNode> }
+impl<'a> Clone for VpSlice<'a> {
+    #[verifier::external_body]
+    fn clone(&self) -> (r: Self) ensures r == *self { unimplemented!() }
+}
+impl<'a> Copy for VpSlice<'a> {}
+impl<'a> VpSlice<'a> {
+    pub uninterp spec fn view(&self) -> Seq<&'a SyntaxNode>;
+    #[verifier::external_body]
+    pub fn len(self) -> (r: usize) ensures r == self@.len() { unimplemented!() }
+    #[verifier::external_body]
+    pub fn is_empty(self) -> (r: bool) ensures r == (self@.len() == 0) { unimplemented!() }
+    #[verifier::external_body]
+    pub fn split_first(self) -> (r: Option<(&'a SyntaxNode, VpSlice<'a>)>)
+        ensures self@.len() == 0 ==> r is None,
+                self@.len() > 0 ==> (r matches Some(p) && p.0 == self@[0] && p.1@ == self@.subrange(1, self@.len() as int)),
+    { unimplemented!() }
+    #[verifier::external_body]
+    pub fn split_last(self) -> (r: Option<(&'a SyntaxNode, VpSlice<'a>)>)
+        ensures self@.len() == 0 ==> r is None,
+                self@.len() > 0 ==> (r matches Some(p) && p.0 == self@.last() && p.1@ == self@.drop_last()),
+    { unimplemented!() }
+    #[verifier::external_body]
+    pub fn iter(self) -> (r: VpIter<&'a SyntaxNode>) ensures r.rest() == self@ { unimplemented!() }
+    /// `&s[start..end]` (panics unless start <= end <= len)
+    #[verifier::external_body]
+    pub fn vp_range(self, start: usize, end: usize) -> (r: VpSlice<'a>)
+        requires start <= end <= self@.len(),
+        ensures r@ == self@.subrange(start as int, end as int),
+    { unimplemented!() }
+}
+impl<'a> VpIter<&'a SyntaxNode> {
+    #[verifier::external_body]
+    pub fn as_slice(&self) -> (r: VpSlice<'a>) ensures r@ == self.rest() { unimplemented!() }
+}
